@@ -49,6 +49,18 @@ type pcase struct {
 	ImplDeleted   int64           `json:"impl_deleted"`
 	ImplDry       int64           `json:"impl_dry"`
 	ExpectedCount int64           `json:"expected_count"`
+	Reqs          []reqStep       `json:"reqs"`
+	FullTable     bool            `json:"full_table"`
+	HasConst      bool            `json:"has_const"`
+}
+
+// reqStep is one request of the flag space {dry_run, confirm}^2 that precedes the confirmed delete,
+// with the outcome the specification predicts ("rejected" | "dry") and the count a dry run reports.
+type reqStep struct {
+	Dry     bool   `json:"dry"`
+	Confirm bool   `json:"confirm"`
+	Out     string `json:"out"`
+	Count   int64  `json:"count"`
 }
 
 type input struct {
@@ -63,6 +75,8 @@ type pred struct {
 	Lit  int    `json:"lit"`
 	Lits []int  `json:"lits"`
 	Neg  bool   `json:"neg"`
+	Val  string `json:"val"`
+	Form string `json:"form"`
 	A    *pred  `json:"a"`
 	B    *pred  `json:"b"`
 }
@@ -92,6 +106,9 @@ type finding struct {
 type result struct {
 	Cases          int                 `json:"cases"`
 	Requests       int                 `json:"requests"`
+	ReqKinds       map[string]int      `json:"requests_by_flags_and_outcome"`
+	FullTableCases int                 `json:"full_table_predicate_cases"`
+	ConstCases     int                 `json:"constant_predicate_cases"`
 	Evaluations    int                 `json:"evaluations"`
 	SecondOpinion  int                 `json:"duckdb_second_opinion_rows"`
 	Disagreements  []string            `json:"oracle_disagreements"`
@@ -132,6 +149,8 @@ func render(p *pred, top bool) string {
 		return s
 	}
 	switch p.K {
+	case "const":
+		return p.Form
 	case "cmp":
 		return fmt.Sprintf("%s %s %s", p.C, p.Op, lit(p.C, p.Lit))
 	case "null":
@@ -298,7 +317,7 @@ func main() {
 	out := flag.String("out", "", "")
 	work := flag.String("work", "", "scratch directory")
 	flag.Parse()
-	res := &result{FileClasses: map[string]int{}}
+	res := &result{FileClasses: map[string]int{}, ReqKinds: map[string]int{}}
 	fail := func(msg string) {
 		res.Infra = msg
 		b, _ := json.Marshal(res)
@@ -437,18 +456,80 @@ func main() {
 		res.Cases++
 		res.Evaluations += len(rows)
 
-		st1, dry, err := h.post(db, meas, where, true, false)
-		res.Requests++
-		if err != nil || st1 != 200 || !dry.Success {
-			if len(res.Errors) < 10 {
-				res.Errors = append(res.Errors, fmt.Sprintf("dry run %q: status %d err %v resp %+v", where, st1, err, dry))
+		if c.FullTable {
+			res.FullTableCases++
+		}
+		if c.HasConst {
+			res.ConstCases++
+		}
+		if len(c.Reqs) == 0 || !c.Reqs[len(c.Reqs)-1].Dry {
+			fail("case without a dry-run request")
+		}
+		// the requests that precede the confirmed delete: every flag combination, in the specification's order
+		var dry *delResp
+		var afterDry map[string][]string
+		abort := false
+		for _, rq := range c.Reqs {
+			st, dr, err := h.post(db, meas, where, rq.Dry, rq.Confirm)
+			res.Requests++
+			res.ReqKinds[fmt.Sprintf("dry_run=%v,confirm=%v:%s", rq.Dry, rq.Confirm, rq.Out)]++
+			if err != nil {
+				fail("request: " + err.Error())
 			}
+			wq := witness{Where: where, Layout: c.Lay, Before: before, TruthByRow: tvOf, ExpectedKeep: before, TrueRows: c.ExpectedCount,
+				Note: fmt.Sprintf("request dry_run=%v confirm=%v answered status %d %+v", rq.Dry, rq.Confirm, st, dr)}
+			if rq.Out == "rejected" {
+				if st >= 400 && st < 500 {
+					continue // refused: nothing ran
+				}
+				res.add(&res.drift, fmt.Sprintf("request-dry_run=%v-confirm=%v-not-refused", rq.Dry, rq.Confirm), wq)
+			} else if st != 200 || dr == nil || !dr.Success {
+				if len(res.Errors) < 10 {
+					res.Errors = append(res.Errors, fmt.Sprintf("dry run %q (confirm=%v): status %d resp %+v", where, rq.Confirm, st, dr))
+				}
+				abort = true
+				break
+			}
+			state, _, err := readMeasurement(env, rel, "")
+			if err != nil {
+				fail("read after request: " + err.Error())
+			}
+			if !sameState(before, state) {
+				wq.After = state
+				if rq.Dry {
+					sig := "dry-run-modified-data"
+					if rq.Confirm {
+						sig = "dry-run-with-confirm-modified-data"
+					}
+					if c.FullTable {
+						sig += ":full-table-predicate"
+					}
+					res.add(&res.viol, sig, wq)
+				} else {
+					// an unconfirmed, non-dry request that changes data is outside the property statement: reported as drift
+					res.add(&res.drift, "unconfirmed-request-modified-data", wq)
+				}
+				abort = true
+				break
+			}
+			if rq.Out == "dry" && st == 200 {
+				if !dr.DryRun {
+					res.add(&res.drift, "dry-run-answered-with-dry_run=false", wq)
+				}
+				if dr.DeletedCount != rq.Count {
+					res.add(&res.drift, "dry-run-report-differs-from-RowDelete.tla", wq)
+				}
+				if dry != nil && dry.DeletedCount != dr.DeletedCount {
+					wq.DryCount = dry.DeletedCount
+					wq.Deleted = dr.DeletedCount
+					res.add(&res.viol, "dry-run-count-depends-on-confirm-flag", wq)
+				}
+				dry, afterDry = dr, state
+			}
+		}
+		if abort || dry == nil {
 			os.RemoveAll(filepath.Join(env.Root, rel))
 			continue
-		}
-		afterDry, _, err := readMeasurement(env, rel, "")
-		if err != nil {
-			fail("read after dry run: " + err.Error())
 		}
 		st2, conf, err := h.post(db, meas, where, false, true)
 		res.Requests++
